@@ -169,6 +169,7 @@ def loadErrName : LoadErr → String
   | .decrypt => "decrypt"
   | .extractIndex => "extractidx"
   | .walk => "walk"
+  | .noPasswordFiles => "nopw"
 
 def seqErrName : SeqErr → String
   | .unknownIndex => "unknown"
@@ -250,7 +251,7 @@ def opLoadRec (d : DState) (dir : Str) (orc : List (String × String)) : DState 
   | some e, _ =>
     let classes :=
       if dir ≠ [] ∧ lookup d.w dir = none then ["walk"]
-      else valid.filterMap (fun f => match recOne (passwordFiles d.w dir) f 1 with
+      else valid.filterMap (fun f => match recOne Fixes.current (passwordFiles d.w dir) f 1 with
         | .error x => some (loadErrName x)
         | .ok _ => none)
     fin d (if classes.contains e then "err:" ++ e else "impossible")
